@@ -69,8 +69,7 @@ func (r *Runner) fillExpandConfig(ctx context.Context) {
 			// Like Bash outside of POSIX mode, command substitutions do not inherit errexit.
 			r2.opts[optErrExit] = false
 			r2.stmts(ctx, cs.Stmts)
-			r2.exit.exiting = false   // subshells don't exit the parent shell
-			r2.exit.returning = false // nor do they return from its functions
+			r2.subshellExit(ctx)
 			r.lastExpandExit = r2.exit
 			if r2.exit.fatalExit {
 				return r2.exit.err // surface fatal errors immediately
@@ -160,8 +159,7 @@ func (r *Runner) fillExpandConfig(ctx context.Context) {
 					panic(fmt.Sprintf("unexpected process substitution operator: %q", ps.Op))
 				}
 				r2.stmts(ctx, ps.Stmts)
-				r2.exit.exiting = false   // subshells don't exit the parent shell
-				r2.exit.returning = false // nor do they return from its functions
+				r2.subshellExit(ctx)
 			}()
 			return path, nil
 		},
@@ -303,8 +301,7 @@ func (r *Runner) errf(format string, a ...any) {
 }
 
 func (r *Runner) stop(ctx context.Context) bool {
-	// Some traps trigger on exit, so we do want those to run.
-	if !r.handlingTrap && (r.exit.returning || r.exit.exiting) {
+	if r.exit.returning || r.exit.exiting {
 		return true
 	}
 	if err := ctx.Err(); err != nil {
@@ -336,8 +333,10 @@ func (r *Runner) stmt(ctx context.Context, st *syntax.Stmt) {
 		go func() {
 			verifYield("bg.start", r2)
 			r2.Run(ctx, &st2)
-			r2.exit.exiting = false   // subshells don't exit the parent shell
-			r2.exit.returning = false // nor do they return from its functions
+			if r2.exit.exiting {
+				r2.callbackExit = "" // Run has run it already
+			}
+			r2.subshellExit(ctx)
 			*bg.exit = r2.exit
 			verifYield("bg.end", r2)
 			close(bg.done)
@@ -420,6 +419,14 @@ func errChecked(cm syntax.Command) bool {
 	return true
 }
 
+// subshellExit ends a subshell environment: its own EXIT trap runs, and neither an exit
+// nor a return inside it reaches the parent shell.
+func (r *Runner) subshellExit(ctx context.Context) {
+	r.trapCallback(ctx, r.callbackExit, "exit")
+	r.exit.exiting = false
+	r.exit.returning = false
+}
+
 func (r *Runner) cmd(ctx context.Context, cm syntax.Command) {
 	if r.stop(ctx) {
 		return
@@ -434,8 +441,7 @@ func (r *Runner) cmd(ctx context.Context, cm syntax.Command) {
 	case *syntax.Subshell:
 		r2 := r.subshell(false)
 		r2.stmts(ctx, cm.Stmts)
-		r2.exit.exiting = false   // subshells don't exit the parent shell
-		r2.exit.returning = false // nor do they return from its functions
+		r2.subshellExit(ctx)
 		r.exit = r2.exit
 	case *syntax.CallExpr:
 		// Build new slices, to not modify the caller's AST
@@ -557,8 +563,7 @@ func (r *Runner) cmd(ctx context.Context, cm syntax.Command) {
 			wg.Go(func() {
 				verifYield("pipe.start", r2)
 				r2.stmt(ctx, cm.X)
-				r2.exit.exiting = false   // subshells don't exit the parent shell
-				r2.exit.returning = false // nor do they return from its functions
+				r2.subshellExit(ctx)
 				pw.Close()
 				verifYield("pipe.end", r2)
 			})
@@ -934,8 +939,15 @@ func (r *Runner) trapCallback(ctx context.Context, callback, name string) {
 	}
 	oldExit, oldLastExit := r.exit, r.lastExit
 	r.lastExit = r.exit
+	// The action is a command list of its own: it runs even though the shell may be exiting.
+	r.exit = exitStatus{}
 	r.stmts(ctx, file.Stmts)
-	r.exit, r.lastExit = oldExit, oldLastExit // traps on EXIT or ERR should not modify the result
+	if r.exit.exiting {
+		// The action itself called exit (or was cancelled): that ends the shell, with that status.
+		r.lastExit = oldLastExit
+		return
+	}
+	r.exit, r.lastExit = oldExit, oldLastExit // otherwise traps on EXIT or ERR do not modify the result
 	if err := ctx.Err(); err != nil {
 		r.exit.fatal(err) // except that a cancellation noticed inside the trap must not be lost
 	}
